@@ -32,7 +32,11 @@ func visitCommentGroups(cg *ast.CommentGroup, visit func(*ast.CommentGroup)) {
 		if strings.HasPrefix(comment.Text, "/*") {
 			visitGroup(group)
 			group = group[:0]
-			visitGroup([]*ast.Comment{comment})
+			// An unterminated comment is a syntax error, but it still ends up
+			// in the tree; ast.CommentGroup.Text panics on a bare `/*`.
+			if len(comment.Text) >= len("/**/") && strings.HasSuffix(comment.Text, "*/") {
+				visitGroup([]*ast.Comment{comment})
+			}
 		} else {
 			group = append(group, comment)
 		}
